@@ -47,3 +47,30 @@ func init() {
 		externs: map[string]string{},
 	})
 }
+
+func init() {
+	semverExt := map[string]string{}
+	semverFx := map[string]bool{}
+	for _, n := range []string{"IsValid", "Canonical", "Major", "MajorMinor", "Prerelease", "Build", "Compare"} {
+		semverExt["semver."+n] = "ModVerif.Generated.Semver." + n
+		semverFx["semver."+n] = true
+	}
+	g2lUnits = append(g2lUnits, &g2lUnit{
+		out: "FnModule", ns: "Module", pkgDir: "module",
+		imports: []string{"ModVerif.Basic.GoRtUtf8", "ModVerif.Generated.Facts", "ModVerif.Generated.FnSemver"},
+		fns: []string{"firstPathOK", "modPathOK", "importPathOK", "fileNameOK", "checkElem", "checkPath", "CheckPath", "CheckImportPath", "CheckFilePath",
+			"SplitPathVersion", "splitGopkgIn", "CheckPathMajor", "MatchPathMajor", "PathMajorPrefix", "Check", "CanonicalVersion",
+			"escapeString", "unescapeString", "EscapePath", "EscapeVersion", "UnescapePath", "UnescapeVersion", "MatchPrefixPatterns",
+			"incDecimal", "decDecimal", "PseudoVersion", "ZeroPseudoVersion", "IsPseudoVersion", "IsZeroPseudoVersion", "parsePseudoVersion",
+			"PseudoVersionRev", "PseudoVersionBase"},
+		absTypes: map[string]string{"Time": "T"},
+		absFuncs: map[string]string{"unicode.IsLetter": "isLetter", "path.Match": "pathMatch", "strings.EqualFold": "equalFold"},
+		absCalls: map[string]string{"t.UTC().Format": "fmtTime:recv", "pseudoVersionRE.MatchString": "pseudoRE"},
+		absSigs: map[string]string{"isLetter": "Int → Bool", "pathMatch": "Bytes → Bytes → (Bool × Option String)", "equalFold": "Bytes → Bytes → Bool",
+			"fmtTime": "T → Bytes → Bytes", "pseudoRE": "Bytes → Bool"},
+		pkgVars:   map[string]string{"badWindowsNames": "ModVerif.Generated.module_badWindowsNames"},
+		externs:   semverExt,
+		externFx:  semverFx,
+		externFue: semverFx,
+	})
+}
